@@ -9,26 +9,26 @@ import (
 	"github.com/welllog/golib/zzshim/ctl"
 )
 
-func LoadInt32(p *int32) int32          { defer ctl.Turn()(); return atomic.LoadInt32(p) }
-func LoadInt64(p *int64) int64          { defer ctl.Turn()(); return atomic.LoadInt64(p) }
-func LoadUint32(p *uint32) uint32       { defer ctl.Turn()(); return atomic.LoadUint32(p) }
-func LoadUint64(p *uint64) uint64       { defer ctl.Turn()(); return atomic.LoadUint64(p) }
-func StoreInt32(p *int32, v int32)      { defer ctl.Turn()(); atomic.StoreInt32(p, v) }
-func StoreInt64(p *int64, v int64)      { defer ctl.Turn()(); atomic.StoreInt64(p, v) }
-func StoreUint32(p *uint32, v uint32)   { defer ctl.Turn()(); atomic.StoreUint32(p, v) }
-func StoreUint64(p *uint64, v uint64)   { defer ctl.Turn()(); atomic.StoreUint64(p, v) }
-func AddInt32(p *int32, d int32) int32  { defer ctl.Turn()(); return atomic.AddInt32(p, d) }
-func AddInt64(p *int64, d int64) int64  { defer ctl.Turn()(); return atomic.AddInt64(p, d) }
-func AddUint32(p *uint32, d uint32) uint32 { defer ctl.Turn()(); return atomic.AddUint32(p, d) }
-func AddUint64(p *uint64, d uint64) uint64 { defer ctl.Turn()(); return atomic.AddUint64(p, d) }
-func CompareAndSwapInt32(p *int32, o, n int32) bool   { defer ctl.Turn()(); return atomic.CompareAndSwapInt32(p, o, n) }
-func CompareAndSwapInt64(p *int64, o, n int64) bool   { defer ctl.Turn()(); return atomic.CompareAndSwapInt64(p, o, n) }
-func CompareAndSwapUint32(p *uint32, o, n uint32) bool { defer ctl.Turn()(); return atomic.CompareAndSwapUint32(p, o, n) }
-func CompareAndSwapUint64(p *uint64, o, n uint64) bool { defer ctl.Turn()(); return atomic.CompareAndSwapUint64(p, o, n) }
-func LoadPointer(p *unsafe.Pointer) unsafe.Pointer    { defer ctl.Turn()(); return atomic.LoadPointer(p) }
-func StorePointer(p *unsafe.Pointer, v unsafe.Pointer) { defer ctl.Turn()(); atomic.StorePointer(p, v) }
+func LoadInt32(p *int32) int32          { defer ctl.TurnK(1)(); return atomic.LoadInt32(p) }
+func LoadInt64(p *int64) int64          { defer ctl.TurnK(1)(); return atomic.LoadInt64(p) }
+func LoadUint32(p *uint32) uint32       { defer ctl.TurnK(1)(); return atomic.LoadUint32(p) }
+func LoadUint64(p *uint64) uint64       { defer ctl.TurnK(1)(); return atomic.LoadUint64(p) }
+func StoreInt32(p *int32, v int32)      { defer ctl.TurnK(1)(); atomic.StoreInt32(p, v) }
+func StoreInt64(p *int64, v int64)      { defer ctl.TurnK(1)(); atomic.StoreInt64(p, v) }
+func StoreUint32(p *uint32, v uint32)   { defer ctl.TurnK(1)(); atomic.StoreUint32(p, v) }
+func StoreUint64(p *uint64, v uint64)   { defer ctl.TurnK(1)(); atomic.StoreUint64(p, v) }
+func AddInt32(p *int32, d int32) int32  { defer ctl.TurnK(1)(); return atomic.AddInt32(p, d) }
+func AddInt64(p *int64, d int64) int64  { defer ctl.TurnK(1)(); return atomic.AddInt64(p, d) }
+func AddUint32(p *uint32, d uint32) uint32 { defer ctl.TurnK(1)(); return atomic.AddUint32(p, d) }
+func AddUint64(p *uint64, d uint64) uint64 { defer ctl.TurnK(1)(); return atomic.AddUint64(p, d) }
+func CompareAndSwapInt32(p *int32, o, n int32) bool   { defer ctl.TurnK(1)(); return atomic.CompareAndSwapInt32(p, o, n) }
+func CompareAndSwapInt64(p *int64, o, n int64) bool   { defer ctl.TurnK(1)(); return atomic.CompareAndSwapInt64(p, o, n) }
+func CompareAndSwapUint32(p *uint32, o, n uint32) bool { defer ctl.TurnK(1)(); return atomic.CompareAndSwapUint32(p, o, n) }
+func CompareAndSwapUint64(p *uint64, o, n uint64) bool { defer ctl.TurnK(1)(); return atomic.CompareAndSwapUint64(p, o, n) }
+func LoadPointer(p *unsafe.Pointer) unsafe.Pointer    { defer ctl.TurnK(1)(); return atomic.LoadPointer(p) }
+func StorePointer(p *unsafe.Pointer, v unsafe.Pointer) { defer ctl.TurnK(1)(); atomic.StorePointer(p, v) }
 func CompareAndSwapPointer(p *unsafe.Pointer, o, n unsafe.Pointer) bool {
-	defer ctl.Turn()()
+	defer ctl.TurnK(1)()
 	return atomic.CompareAndSwapPointer(p, o, n)
 }
-func SwapPointer(p *unsafe.Pointer, n unsafe.Pointer) unsafe.Pointer { defer ctl.Turn()(); return atomic.SwapPointer(p, n) }
+func SwapPointer(p *unsafe.Pointer, n unsafe.Pointer) unsafe.Pointer { defer ctl.TurnK(1)(); return atomic.SwapPointer(p, n) }
